@@ -203,7 +203,12 @@ class MultiTanStage(Stage):
             bld = builder.Builder(pio)
             proc.compute_global_pixelization(bld)
             index = {id(d.sub_tiling): i for i, d in enumerate(proc._descs)}
-            stage.key_of = lambda x: index.get(id(x[1].sub_tiling), -1)      # queue items are (image, description)
+            def key_of(x):      # queue items are (image, description); anything else is not an item of the spec's
+                try:
+                    return index.get(id(x[1].sub_tiling), -1)
+                except Exception:  # noqa
+                    return -1
+            stage.key_of = key_of
             # the hook stays installed after this function returns or raises: in a simulated run the workers share this
             # memory and may still be delivering items while the parent is already unwinding
             _MT_HOOK["index"], _MT_HOOK["cb"] = index, (lambda i: stage._cb(i, log, faults))
